@@ -20,6 +20,14 @@ def models():
     st = {t: m for t, f, m in gen.c01_structured()}
     ms.append(("per-node-overrides", st["F2-parallel-2"]))
     ms.append(("hierarchy-2", st["F7-hierarchy-2"]))
+    # variables declared in the explicit dictionary form, ONE operator shared by the nodes of a hierarchy, overrides on some nodes
+    ms.append(("dictvars-hierarchy", st["F7-hierarchy-1"]))
+    # one edge template used by several edge groups, one edge overriding a parameter of the edge operator
+    v5 = {t: m for t, f, m in gen.c04_extra()}["V5-edge-template-three-groups"]
+    import json
+    v5 = json.loads(json.dumps(v5))
+    v5["edges"][3]["eover"] = {"gain": 3.0}
+    ms.append(("edge-template-per-edge-override", v5))
     return ms
 
 
@@ -31,12 +39,14 @@ def families(tier, seed):
         for op in ops:
             if op == "run_inputs" and mtag == "hierarchy-2":
                 continue        # extrinsic inputs on a depth-2 hierarchy fail for an unrelated reason (see C08)
-            out.append(dict(tag=f"{mtag}/{op}", features=dict(model=mtag, ops=[op]), kind="readonly", model=model, ops=[op], seed=seed))
+            out.append(dict(tag=f"{mtag}/{op}", features=dict(model=mtag, ops=[op]), kind="readonly", model=model, ops=[op], seed=seed,
+                            dict_vars=mtag.startswith("dictvars")))
         seqs = [list(p) for p in itertools.permutations(ops, 2)]
         rng.shuffle(seqs)
         seqs = [q for q in seqs if not ("run_inputs" in q and mtag == "hierarchy-2")]
         for sq in seqs[: (6 if tier == "quick" else 40)]:
-            out.append(dict(tag=f"{mtag}/{'+'.join(sq)}", features=dict(model=mtag, ops=sq), kind="readonly", model=model, ops=sq, seed=seed))
+            out.append(dict(tag=f"{mtag}/{'+'.join(sq)}", features=dict(model=mtag, ops=sq), kind="readonly", model=model, ops=sq, seed=seed,
+                            dict_vars=mtag.startswith("dictvars")))
         if tier == "thorough":
             seq3 = [list(p) for p in itertools.permutations(ops, 3)]
             rng.shuffle(seq3)
